@@ -168,6 +168,14 @@ func checkAccepted(t byte, b []byte, kind string) {
 		tr = "trailing"
 	}
 	out.Class("accepted/" + tn + "/" + kind + "/" + tr)
+	// The checks below compare with the reference encoder, which writes the remaining length in its
+	// shortest form. A packet that was accepted with a longer form of the length (legal in 3.1.1) and is
+	// changed in place keeps that form: still an encoding of its fields, not the one the reference
+	// writes. Such inputs end here.
+	if !minimalLength(in[:n]) {
+		out.Count("c03.accept.nonminimal_length", 1)
+		return
+	}
 	// a decoded message changed through a setter (as the broker does with a CONNECT: keep-alive, client
 	// id) must encode to the MQTT encoding of its new fields
 	modifyAfterDecode(t, in[:n], detail)
@@ -179,6 +187,19 @@ func checkAccepted(t byte, b []byte, kind string) {
 	if pm, ok := m.(*message.PublishMessage); ok {
 		cloneIndependence(pm, in[:n], detail)
 	}
+}
+
+// minimalLength reports whether the remaining length of the packet is written in its shortest form.
+func minimalLength(w []byte) bool {
+	v, k := 0, 0
+	for i := 1; i < len(w) && i <= 4; i++ {
+		v |= int(w[i]&0x7f) << (7 * uint(i-1))
+		k++
+		if w[i]&0x80 == 0 {
+			break
+		}
+	}
+	return k == len(rc.AppendVarint(nil, v))
 }
 
 func cloneIndependence(pm *message.PublishMessage, wire []byte, detail map[string]interface{}) {
@@ -280,6 +301,13 @@ func TestC03(t *testing.T) {
 				mut := append([]byte{}, wire...)
 				mut[r.Intn(len(mut))] ^= 1 << uint(r.Intn(8))
 				checkAccepted(p.Type, mut, "bitflip")
+			}
+			// the length / flag / truncation / padding mutations of the C04 corpus: whatever of it a
+			// decoder accepts is a byte string it accepts
+			if len(wire) < 600 && i%4 == 0 {
+				mutations(r, wire, func(kind string, b []byte) {
+					checkAccepted(p.Type, b, "mut/"+kind)
+				})
 			}
 		}
 		out.End()
